@@ -27,15 +27,15 @@ ASSUMPTIONS = [
     "A ValueError is accepted only when a designed-refusal trigger is present, decided syntactically from the statement: "
     "Where body that is not a comparison / and / or / not; an IfExp (unless both branches are constants of one type or "
     "numeric constants, which must pass); a None/Ellipsis constant; a subscript of a tuple literal (unless the index is "
-    "an in-range int constant, which must pass); a subscript or attribute of an expression that contains a dict literal.",
+    "an in-range int constant, which must pass); a subscript or attribute of an expression that contains a dict literal (unless it is directly a dict literal that defines that constant key, which must pass).",
     "Immediately-called lambdas are not generated (captured callables beta-reduce them: C05 territory); abs/len are called "
     "with exactly one positional argument (they are typed functions: C07 territory); string indices into tuple literals "
     "are not generated.",
     "Callables are rendered one per line in a synthetic module registered in linecache (C03 covers layouts).",
 ]
-BUDGET = {"quick": (6, 700), "thorough": (16, 10000)}
+BUDGET = {"quick": (6, 1200), "thorough": (16, 10000)}
 EXHAUSTIVE_SHARDS = {"quick": 4, "thorough": 16}
-EXHAUSTIVE_NOTE = "reduced pool (3 attrs, 4 constants, 19 forms): every expression of depth <=1 (quick) or <=2 (thorough), x Select/SelectMany/Where, string form"
+EXHAUSTIVE_NOTE = "reduced pool (3 attrs, 4 constants, 33 forms): every expression of depth <=1 (quick) or <=2 (thorough), x Select/SelectMany/Where, string form"
 
 _CFG = untyped.Cfg(
     const_kinds="iifssbycNE"[:8] + "NE",
@@ -54,7 +54,7 @@ def _body(draw, depth, p):
 def _expr(draw, depth, bound):
     """untyped.expr plus the C10-specific forms"""
     if depth > 0:
-        k = draw(st.integers(0, 24))
+        k = {0: 0, 1: 0, 2: 1, 3: 1, 4: 2, 5: 3, 6: 4, 7: 5}.get(draw(st.integers(0, 17)), 99)
         d = depth - 1
         if k == 0:  # subscript of a tuple literal: constant in range / out of range / variable / negative / slice
             n = draw(st.integers(1, 3))
@@ -127,9 +127,9 @@ _ATOMS = ["e", "e.pt", "e.id", "e.value", "1", "1.5", "'a'", "True"]
 def _level(prev):
     out = []
     for a in prev:
-        out += [f"{a}.pt" if not a[0].isdigit() else f"({a}).pt", f"f({a})", f"-{_p(a)}", f"not {a}", f"[{a}]", f"({a},)", f"{{'k': {a}}}", f"{{'a b': {a}}}",
+        out += [f"{_p(a)}.pt", f"f({a})", f"-{_p(a)}", f"not {a}", f"[{a}]", f"({a},)", f"{{'k': {a}}}", f"{{'a b': {a}}}",
                 f"(lambda x: {a})", f"{_p(a)}.m()", f"{_p(a)}.Select(lambda j: j)", f"Count({a})", f"abs({a})", f"{_p(a)}[0]", f"({a},)[0]", f"({a},)[1]",
-                f"{{'k': {a}}}['k']", f"{{'k': {a}}}.z", f"{_p(a)}.id", f"{_p(a)}.value"]
+                f"{{'k': {a}}}['k']", f"{{'k': {a}}}.z", f"{{'k': 1, 'j': 2, 'm': {a}}}.m", f"{{'k': 1, 'j': {a}, 'm': 3}}['m']", f"{_p(a)}.id", f"{_p(a)}.value"]
     return out
 
 
@@ -142,7 +142,15 @@ def _level2(prev, atoms):
 
 
 def _p(s):
-    return untyped._paren(s) if not s.startswith("(") else s
+    """parenthesise unless s is a primary that can take .attr / [i] / (args) directly"""
+    n = ast.parse(s, mode="eval").body
+    if isinstance(n, (ast.Name, ast.Attribute, ast.Call, ast.Subscript, ast.List, ast.Dict)):
+        return s
+    if isinstance(n, ast.Constant) and isinstance(n.value, (str, bytes)):
+        return s
+    if s.startswith("(") and s.endswith(")") and isinstance(n, ast.Tuple):
+        return s
+    return f"({s})"
 
 
 def exhaustive(tier):
@@ -185,6 +193,11 @@ def triggers(op: str, body: ast.expr):
                 continue
             t.add("tuple-index")
         if isinstance(n, (ast.Subscript, ast.Attribute)) and _contains(n.value, ast.Dict):
+            if isinstance(n.value, ast.Dict):
+                keys = [k.value for k in n.value.keys if isinstance(k, ast.Constant)]
+                key = n.attr if isinstance(n, ast.Attribute) else (n.slice.value if isinstance(n.slice, ast.Constant) else None)
+                if isinstance(key, str) and key in keys:
+                    continue  # a key the literal defines: must pass
             t.add("dict-lookup")
     return t
 
@@ -262,5 +275,6 @@ def selftest():
     assert tr("Where", "not (e.a > 1 and e.b)") == set()
     assert tr("Select", "1 if e else 2.5") == set() and tr("Select", "'a' if e else 1") == {"ifexp-types"}
     assert tr("Select", "(e, 1)[1]") == set() and tr("Select", "(e, 1)[2]") == {"tuple-index"} and tr("Select", "(e, 1)[e]") == {"tuple-index"}
+    assert tr("Select", "{'a': 1, 'b': 2}.b") == set() and tr("Select", "{'a': 1}['a']") == set()
     assert tr("Select", "{'a': 1}.b") == {"dict-lookup"} and tr("Select", "f(None)") == {"non-transportable-constant"}
     assert len(list(exhaustive("quick"))) > 2000
